@@ -2,15 +2,16 @@
 import glob
 import json
 import os
+import re
 
 import core
 from core import LeanDriver, canon
-from gen import rules, viewdict
+from gen import rules, viewdict, detachprobe
 import lib_topo as T
 from props import c09
 
 ID = "C07"
-GENERATORS = [rules.generate, viewdict.generate]
+GENERATORS = [rules.generate, viewdict.generate, detachprobe.generate]
 LEAN_MODULES = ["FimVerif.Proofs.C07", "FimVerif.Drivers.TopoRun"]
 P = "FimVerif.C07."
 THEOREMS = [P + t for t in (
@@ -27,7 +28,8 @@ THEOREMS = [P + t for t in (
     "rename_names_counterexample", "nsAddInterface_names_counterexample", "nsAddInterface_sp_counterexample",
     "addLink_sp_counterexample", "connect_names_counterexample", "setName_names_counterexample", "setType_sp_counterexample", "peer_self_names_counterexample",
     "setPropsNT_eq_setProps", "svcNew_top_name_unused", "addService_name_unused", "addPortMirror_name_unused",
-    "nodeAddService_topwide_counterexample")] + ["FimVerif.Topo." + t for t in (
+    "nodeAddService_topwide_counterexample", "sweepAll_true", "catalogue_teardown_keeps_invS",
+    "teardown_clean_every_catalogue_entry")] + ["FimVerif.Topo." + t for t in (
     "invS_grow", "invD_grow", "invD_dropNode", "invS_mapNodes", "namesOk_mapNodes", "invS_addNode", "invS_nsAddInterface", "invS_addLink",
     "invS_connect", "invS_addComponent", "invS_addStorage", "invS_addService", "invS_nodeAddService", "invD_addService",
     "invD_nodeAddService", "invD_addComponent", "svcLoop_ok", "svcLoop_invD", "catalog_ok", "invS_addFacility", "invS_addSwitch",
@@ -47,6 +49,9 @@ TRUSTED_BASE = [
     "gen/rules.py: regexes that read the vocabularies out of graph_validation_rules.json and pin the list of rule kinds; enum members by import",
     "gen/viewdict.py: ast reading of class ViewOnlyDict (one base, defined methods, __init__ shape) + behaviour probe of every in-place "
     "method of dict on an instance and of the sequence type of every interface_list",
+    "gen/detachprobe.py: behaviour probe only (no source text) - every catalogue entry under every name attached, connected (port / "
+    "sub-interface / port mirror) and removed through remove_component / remove_storage / remove_node / prune on a 2-node experiment "
+    "topology; `clean` is the probe's own reading of 'nothing of the component left, every ServicePort one peer'",
     "the Python transliteration of the 11 non-cardinality rules + containment/name-scope rules in props/c07.py (the oracle); the scope "
     "'NetworkService-topology-wide' (a topology-level service shares its name with no other service, owned ones included) is the oracle's and "
     "TopSvcWide's reading of what Topology.network_services / remove_network_service(name) need - it is not a conjunct of Topo.Inv",
@@ -102,6 +107,8 @@ def py_verdicts(snap):
     """the oracle's verdict per conjunct of Topo.Inv on a snapshot of the implementation's graph"""
     v = {c: True for c in CONJUNCTS}
     for rule, cls, _ in check_rules(snap):
+        if rule == "name-vocab":
+            continue                # the name language of a class is not a conjunct of Topo.Inv (the model's calls guard it: validName)
         if rule == "names-unique" and cls not in NAME_CONJ:
             continue                # NetworkService-topology-wide: not a conjunct of Topo.Inv (Lean: TopSvcWide, addService_name_unused)
         v[NAME_CONJ[cls] if rule == "names-unique" else CONJ[rule]] = False
@@ -109,6 +116,21 @@ def py_verdicts(snap):
     return v
 
 _VOCAB = None
+_NAME_RX = None
+
+
+def name_rules():
+    """class -> NAME_REGEX of its sliver class"""
+    global _NAME_RX
+    if _NAME_RX is None:
+        from fim.slivers.network_node import NodeSliver
+        from fim.slivers.attached_components import ComponentSliver
+        from fim.slivers.network_service import NetworkServiceSliver
+        from fim.slivers.interface_info import InterfaceSliver
+        from fim.slivers.network_link import NetworkLinkSliver
+        _NAME_RX = {"NetworkNode": NodeSliver.NAME_REGEX, "Component": ComponentSliver.NAME_REGEX, "NetworkService": NetworkServiceSliver.NAME_REGEX,
+                    "ConnectionPoint": InterfaceSliver.NAME_REGEX, "Link": NetworkLinkSliver.NAME_REGEX}
+    return _NAME_RX
 
 
 def vocab():
@@ -145,6 +167,11 @@ def check_rules(snap):
             out.append(("class-vocab", c, n[:4]))
         elif c in v["types"] and typ not in v["types"][c]:
             out.append(("type-vocab", "%s:%s" % (c, typ), n[:4]))
+        # "... and name from the allowed vocabularies": the name language of the element's class (NAME_REGEX of its sliver class,
+        # what every naming entry point validates against), read from the tree under test
+        rx = name_rules().get(c)
+        if rx is not None and not re.fullmatch(rx, name):
+            out.append(("name-vocab", c, n[:4]))
     for nid, l in by_id.items():
         if len(l) > 1:
             out.append(("ids-distinct", "+".join(sorted(x[0] for x in l)), nid))
@@ -683,6 +710,13 @@ def deterministic_cases():
             {"op": "ns_add_interface", "svc": "h14", "name": "ia", "itype": "TrunkPort", "kw": []},          # h16
             {"op": "ns_add_interface", "svc": "h14", "name": "ib", "itype": "TrunkPort", "kw": []},          # h17
             {"op": "rename", "h": h, "name": nm}]))
+    # rename to a name the element's class does not allow (too short, empty, too long, a character outside the class's set, a
+    # trailing newline) on every kind of element: refused, nothing changes, the views still read
+    for tag, h in (("node", "h1"), ("component", "h8"), ("top-service", "h11"), ("node-service", "h15"), ("interface", "h3"), ("link", "h13")):
+        bad = ["", "x" if tag != "interface" else "a#b", "a!b" if tag != "interface" else "a;b", "ab\n", "n" * 256,
+               {"node": "a b", "component": "a/b", "top-service": "a:b", "node-service": "a b", "interface": "a,b", "link": "a,b"}[tag]]
+        out.append(("rename-invalid/" + tag, "exp", named_pre() + [{"op": "rename", "h": h, "name": b_} for b_ in bad] +
+                    [{"op": "rename", "h": h, "name": "fine-1"}]))
     top = lambda n: {"op": "add_service", "name": n, "nstype": "L2Bridge", "ifs": [], "kw": []}
     out.append(("owned-service-named-like-top-level/node_add_service", "exp", base + [
         top("nsx"), {"op": "node_add_service", "parent": "h0", "name": "nsx", "nstype": "OVS", "kw": []}]))
@@ -835,6 +869,125 @@ def interleaved_cases():
     return out
 
 
+def catalogue():
+    """Every component the catalogue of the tree under test knows - read from its file and from generate_component on every run,
+    nothing hard-coded: (ctype, model name to pass, interface types of its ports), once for the Model name and once for every
+    AlsoModels name.  The random streams draw 8 common (type, model) pairs; a condition in the user layer that holds for the
+    common component types and not for a rare one shows only when every entry is put through every route."""
+    import fim.slivers.component_catalog as cc
+    from fim.slivers.attached_components import ComponentSliver
+    with open(os.path.join(os.path.dirname(cc.__file__), "data", "component_catalog.json")) as f:
+        cat = json.load(f)
+    out = []
+    for c in cat:
+        for m in [c["Model"]] + list(c.get("AlsoModels") or []):
+            itypes = [None] * len(c.get("Interfaces") or {})
+            try:
+                cs = cc.ComponentCatalog().generate_component(name="XX", model=m, ctype=ComponentSliver.type_from_str(c["Type"]))
+                nsi = cs.network_service_info
+                got = [str(i.get_type()) for ns in (nsi.network_services.values() if nsi is not None else [])
+                       for i in (ns.interface_info.interfaces.values() if ns.interface_info is not None else [])]
+                if len(got) == len(itypes):
+                    itypes = got
+            except Exception:
+                pass
+            out.append((c["Type"], m, itypes, m != c["Model"]))
+    return out
+
+
+SWEEP_ROUTES = {"exp": ("remove_component", "remove_storage", "remove_node", "prune-component", "prune-node", "remove_service-first",
+                        "disconnect-first"),
+                "sub": ("remove_component", "remove_node")}
+
+
+def sweep_ops(fl, ctype, model, itypes, ntype, conn, route, ids=False):
+    """One catalogue entry attached to a node of type `ntype`, its ports connected the way `conn` says (bridge: first port - and a
+    sub-interface of the second, when that is a dedicated port - in L2Bridge services; mirror: port-mirror service onto the first
+    port; link: a plain link from the first port), then removed through `route`, then one more creating call."""
+    sub = fl.startswith("sub") or ids          # ids: an experiment topology with caller-supplied ids throughout (the histories of
+    I = (lambda s: s) if sub else (lambda s: None)                      # C07.sweepPre in Lean)
+    n = len(itypes)
+    ops = [
+        {"op": "add_node", "name": "n1", "nid": I("n1id"), "site": "RENC", "ntype": ntype, "kw": []},                       # h0
+        {"op": "add_node", "name": "n2", "nid": I("n2id"), "site": "UKY", "ntype": "Server" if fl.startswith("sub") else "VM", "kw": []},    # h1
+        {"op": "add_component", "parent": "h1", "name": "nic0", "nid": I("c0id"), "ctype": "SharedNIC", "model": "ConnectX-6",
+         "ns_nid": I("c0ns"), "if_nids": ["c0i1"] if sub else None, "n_labels": 1 if sub else None, "kw": []},              # h2; port h3
+        {"op": "add_component", "parent": "h0", "name": "dev1", "nid": I("c1id"), "ctype": ctype, "model": model,
+         "ns_nid": I("c1ns") if n else None, "if_nids": ["c1i%d" % i for i in range(n)] if sub and n else None,
+         "n_labels": n if sub and n else None, "kw": []}]                                                                    # h4; ports h5..
+    nxt = 5 + n
+    svc = None
+    if n and conn == "bridge":
+        ops.append({"op": "add_service", "name": "br1", "nid": I("br1id"), "nstype": "L2Bridge", "ifs": ["h5", "h3"], "kw": []})
+        svc, nxt = "h%d" % nxt, nxt + 1
+        if n >= 2 and itypes[1] == "DedicatedPort":
+            ops.append({"op": "add_child_interface", "port": "h6", "name": "sub1", "nid": I("sub1id"), "kw": [["labels", ["lab", {"vlan": "100"}]]]})
+            ops.append({"op": "add_service", "name": "br2", "nid": I("br2id"), "nstype": "L2Bridge", "ifs": ["h%d" % nxt], "kw": []})
+            nxt += 2
+    elif n and conn == "mirror":
+        ops.append({"op": "add_port_mirror", "name": "pm1", "nid": I("pm1id"), "to": "h5", "from_name": "nic0-p1", "from_vlan": None,
+                    "direction": "Both", "kw": []})
+        svc, nxt = "h%d" % nxt, nxt + 1
+    elif n and conn == "link":
+        ops.append({"op": "add_link", "name": "l1", "nid": I("l1id"), "ltype": "L2Path", "ifs": ["h5", "h3"], "kw": []})
+        nxt += 1
+        if n >= 2 and itypes[1] == "DedicatedPort":         # an unconnected sub-interface goes with its carrier
+            ops.append({"op": "add_child_interface", "port": "h6", "name": "sub1", "nid": I("sub1id"), "kw": [["labels", ["lab", {"vlan": "100"}]]]})
+            nxt += 1
+    mark = lambda h: {"op": "set_props", "h": h, "kw": [["reservation_info", ["rinfo", "Failed"]]]}
+    rm = {"op": "remove_component", "parent": "h0", "name": "dev1"}
+    if route == "remove_component":
+        ops.append(rm)
+    elif route == "remove_storage":
+        ops.append(dict(rm, via="remove_storage"))
+    elif route == "remove_node":
+        ops.append({"op": "remove_node", "name": "n1"})
+    elif route == "prune-component":
+        ops += [mark("h4"), {"op": "prune", "state": "Failed"}]
+    elif route == "prune-node":
+        ops += [mark("h0"), {"op": "prune", "state": "Failed"}]
+    elif route == "remove_service-first":
+        if svc is not None:
+            ops.append({"op": "remove_service", "name": "br1" if conn == "bridge" else "pm1"})
+        ops.append(rm)
+    elif route == "disconnect-first":
+        if svc is not None and conn == "bridge":
+            ops.append({"op": "disconnect", "svc": svc, "if": "h5"})
+        ops.append(rm)
+    ops.append({"op": "add_service", "name": "after", "nid": I("afterid"), "nstype": "L2Bridge", "ifs": [], "kw": []})
+    return ops
+
+
+def catalogue_sweep_cases(thorough=False):
+    """catalogue entry x connection x removal route (x owner node type, rotating): quick tier - every Model name through every route
+    with its ports bridged, and through remove_component / prune with a port mirror and a plain link; thorough - the full product,
+    AlsoModels names included.  Components without ports go through the routes that remove the component itself."""
+    out = []
+    k = 0
+    for ctype, model, itypes, also in catalogue():
+        if also and not thorough:
+            continue
+        for fl in ("exp", "sub"):
+            for route in SWEEP_ROUTES[fl]:
+                if not itypes and route in ("remove_service-first", "disconnect-first", "prune-node", "remove_node"):
+                    continue
+                # (a substrate topology refuses a service over node ports: its ports are joined by plain links)
+                for conn in (("bridge", "mirror", "link") if fl == "exp" else ("link",)) if itypes else ("none",):
+                    if not thorough and fl == "exp" and conn != "bridge" and route not in ("remove_component", "prune-component"):
+                        continue
+                    if conn == "link" and route in ("remove_service-first", "disconnect-first"):
+                        continue
+                    ntype = T.NODE_TYPES[k % len(T.NODE_TYPES)]
+                    k += 1
+                    out.append(("sweep/%s/%s/%s/%s/%s" % (ctype, model, conn, route, ntype), fl,
+                                sweep_ops(fl, ctype, model, itypes, ntype, conn, route)))
+        if itypes:        # the histories of the Lean theorem catalogue_teardown_keeps_invS: caller-supplied ids, owner a VM
+            for conn, route in (("bridge", "remove_component"), ("mirror", "remove_node"), ("bridge", "prune-component")):
+                out.append(("sweep/%s/%s/%s/%s/VM+ids" % (ctype, model, conn, route), "exp",
+                            sweep_ops("exp", ctype, model, itypes, "VM", conn, route, ids=True)))
+    return out
+
+
 def retype_cases():
     """set_property / set_properties with the keywords `name` and `type`: the generic property setter writes Name and Type like
     any other property - no uniqueness guard, no look at what the element is connected to (known findings)"""
@@ -876,7 +1029,10 @@ def correspondence(ctx, res):
         if cnt[0] % 4 == 0:
             names = [n[2] for n in st["after"]["nodes"] if n[0] in ("NetworkNode", "Link", "NetworkService")]
             if len(set(names)) == len(names):          # a name-keyed dictionary over same-named elements: known findings, not modelled
-                st["viewcalls"] = py_view_calls(sess.topo)
+                try:
+                    st["viewcalls"] = py_view_calls(sess.topo)
+                except Exception:       # a view that cannot even be built: the oracle's finding (C07:views:raise:...), nothing to compare here
+                    res.count("view-calls-not-taken:view-raised")
     for j, (name, fl, ops) in enumerate(corpus_cases() + deterministic_cases() + interleaved_cases()):
         # every scripted history on both in-memory stores: here the odd ones on the disjoint store, in the oracle the even ones
         hs.append(c09.run_history(fl + ("+d" if j % 2 == 1 and "+" not in fl else ""), scripted(ops), on_step=grab))
@@ -885,10 +1041,15 @@ def correspondence(ctx, res):
         fl = stream_flavour(i)
         # every second history also draws from the second alphabet (sub-interfaces, peer/unpeer, port mirror, model_type=, prune)
         hs.append(c09.run_history(fl, history_gen(ctx.sub_rng("c07corr/%d" % i), 0.15, ext=(i % 2 == 1)), nmax=ctx.scale(25, 40), on_step=grab))
+    nsel = len(hs)
+    # the catalogue sweep (every component model x connection x removal route), alternating stores; compared call by call like the rest
+    for j, (name, fl, ops) in enumerate(catalogue_sweep_cases(ctx.scale(False, True))):
+        hs.append(c09.run_history(fl + ("+d" if j % 2 == 0 else ""), scripted(ops)))
+        res.count("sweep-corr:" + "/".join(name.split("/")[1:2] + name.split("/")[3:5]))
     c09.compare_with_model(hs, res)
     # the views as pure functions of the state, and the verdict of every conjunct of Topo.Inv on every state of the run:
     # the model's (Lean predicate on the model state) against the oracle's (published rules on the implementation's graph)
-    hsel = hs[: ctx.scale(75, 190)]
+    hsel = hs[: min(nsel, ctx.scale(75, 190))]
     for lo in range(0, len(hsel), 60):
         lines, want = [], []
         for h in hsel[lo:lo + 60]:
@@ -1100,6 +1261,12 @@ def oracle(ctx, res, budget=None):
     for name, fl, ops in interleaved_cases():
         for f in backends(fl):
             run_and_check(f, ops, res, name, views_every=ctx.scale(3, 1), elements_every=ctx.scale(2, 1))
+    # every catalogue entry attached, connected and removed through every route (see catalogue_sweep_cases); the full product in
+    # the thorough tier and in search()
+    for name, fl, ops in catalogue_sweep_cases(ctx.scale(False, True) or budget is not None):
+        for f in backends(fl):
+            run_and_check(f, ops, res, name, views_every=ctx.scale(3, 2))
+            res.count("sweep:" + "/".join(name.split("/")[1:2] + name.split("/")[3:5]))
     if budget is None:
         for fl in ctx.scale(("exp",), ("exp", "sub", "exp+d", "sub+d")):         # C09's scripted failing calls of the second alphabet: the rules hold after each of them too
             for tag, ops in c09.extension_cases(fl, c09.base_ops(fl)):
